@@ -1,17 +1,19 @@
 /-
   Ark.Proofs.RelRefine2Spec — property C01 (faithful store) over the histories of the machine of
   `Ark.Proofs.RelRefine2Machine`: entity operations WITH relation components interleaved with
-  `Shrink`, filter definitions / registrations / unregistrations and queries.
+  `Shrink`, `Reset`, filter definitions / registrations / unregistrations and queries.
 
-  * `refines2` — after every `Reset`-free history every entry of the specification is realised by
-    the world (alive, component set, values, relation targets);
+  * `refines2` — after every history (`Reset` anywhere in it) every entry of the specification is
+    realised by the world (alive, component set, values, relation targets);
+  * `reset_effect2` — `Reset` ends the epoch: the specification is empty, nothing counts as issued,
+    no ID is indexed to a table, no handle of the ended epoch is alive;
   * `alive_iff_specified2` — a handle the client holds is alive iff the specification has it;
   * `Op2.isQuiet`, `quiet_spec`, `quiet_invisible` — `Shrink`, `fdef`, `freg`, `funreg` and `query`
     leave the specification and the ghost history alone, and no entity's components, values or
     relation targets change (C15 over histories with relations: Shrink is invisible).
   Kernel-only proofs, core Lean only.
 -/
-import Ark.Proofs.RelRefine2Reset
+import Ark.Proofs.RelRefine2Gen
 
 set_option autoImplicit false
 
@@ -23,13 +25,12 @@ open Refine (Comps keys sortedIds)
 
 variable (run : ProbeRunner) (cap rel : Nat)
 
-/-- **refines** — after every `Reset`-free history of the machine, for every entry `(e, en)` of
+/-- **refines** — after every history of the machine (`Reset` included), for every entry `(e, en)` of
     the specification: `e` is alive, its component set is the sorted list of the keys of
     `en.comps`, every component holds the recorded value, every relation component has the
     recorded target, and the recorded relations are exactly the relation components among the
     keys -/
-theorem refines2 (ops : List Op2) (hlen : ops.length < 2 ^ 16)
-    (hnr : ∀ op ∈ ops, op.isReset = false) (e : Ent) (en : Entry)
+theorem refines2 (ops : List Op2) (hlen : ops.length < 2 ^ 16) (e : Ent) (en : Entry)
     (hm : (e, en) ∈ (reach2 run cap rel ops).ss.ents) :
     (reach2 run cap rel ops).w.alive e = true ∧
     compsOf (reach2 run cap rel ops).w e.id =
@@ -39,24 +40,55 @@ theorem refines2 (ops : List Op2) (hlen : ops.length < 2 ^ 16)
     (keys en.comps).Nodup ∧ (en.rels.map (·.comp)).Nodup ∧
     (∀ c : Comp, c ∈ en.rels.map (·.comp) ↔
       c ∈ keys en.comps ∧ (reach2 run cap rel ops).w.isRelComp c = true) := by
-  obtain ⟨fl, H⟩ := reach2_inv run cap rel ops hlen hnr
+  obtain ⟨fl, H⟩ := reach2_inv run cap rel ops hlen
   obtain ⟨_, ha, _⟩ := H.base.live_facts hm
   have ok := H.base.ok e en hm
   exact ⟨ha, ok.comps, ok.vals, ok.tgts, ok.nodup, ok.relNodup,
     fun c => by rw [ok.relKeys c, H.base.rget]⟩
 
 /-- a handle the client holds is alive iff the specification has an entry for it -/
-theorem alive_iff_specified2 (ops : List Op2) (hlen : ops.length < 2 ^ 16)
-    (hnr : ∀ op ∈ ops, op.isReset = false) (h : Ent)
+theorem alive_iff_specified2 (ops : List Op2) (hlen : ops.length < 2 ^ 16) (h : Ent)
     (hi : h ∈ (reach2 run cap rel ops).issued) :
     (reach2 run cap rel ops).w.alive h = true ↔
       (find (reach2 run cap rel ops).ss.ents h).isSome = true := by
-  obtain ⟨fl, H⟩ := reach2_inv run cap rel ops hlen hnr
+  obtain ⟨fl, H⟩ := reach2_inv run cap rel ops hlen
   constructor
   · intro ha
     obtain ⟨en, hf, _⟩ := H.base.find_of_alive hi ha
     rw [hf]; rfl
   · exact H.base.alive_of_find
+
+/-- **`Reset` ends the epoch** — `reset` always succeeds; afterwards the specification has no
+    entity, the registry is kept, no ID is indexed to a table any more (no component set, value or
+    relation target can be read), the cache is empty and every filter object unregistered, and
+    the epoch of handles ends: nothing counts as issued, and every handle issued before is dead.
+    (`Reset` re-issues the very same handles — ID and generation — to later `new`s by design,
+    which is why the ghost history starts afresh.  `Reset` writes the sentinel generation `maxU32`
+    into the retained memory; within the history bound no issued handle carries it:
+    `reach2_issued_gen`.) -/
+theorem reset_effect2 (ops : List Op2) (hlen : ops.length + 1 < 2 ^ 16) :
+    (reach2 run cap rel (ops ++ [.reset])).ss.ents = [] ∧
+    (reach2 run cap rel (ops ++ [.reset])).ss.zst = (reach2 run cap rel ops).ss.zst ∧
+    (reach2 run cap rel (ops ++ [.reset])).ss.isRel = (reach2 run cap rel ops).ss.isRel ∧
+    (reach2 run cap rel (ops ++ [.reset])).issued = [] ∧
+    (reach2 run cap rel (ops ++ [.reset])).w.kinds = (reach2 run cap rel ops).w.kinds ∧
+    (∀ (i : Nat), compsOf (reach2 run cap rel (ops ++ [.reset])).w i = none ∧
+      (∀ (c : Comp), valOf (reach2 run cap rel (ops ++ [.reset])).w i c = none) ∧
+      ∀ (c : Comp), targetOf (reach2 run cap rel (ops ++ [.reset])).w i c = none) ∧
+    ((reach2 run cap rel (ops ++ [.reset])).w.cache.indices = [] ∧
+      (reach2 run cap rel (ops ++ [.reset])).w.cache.filters = []) ∧
+    (∀ (f : Nat) (fo : FilterObj),
+      AL.find? (reach2 run cap rel (ops ++ [.reset])).w.filters f = some fo → fo.cache = none) ∧
+    ∀ (h : Ent), h ∈ (reach2 run cap rel ops).issued →
+      (reach2 run cap rel (ops ++ [.reset])).w.alive h = false := by
+  obtain ⟨fl, H⟩ := reach2_inv run cap rel ops (by omega)
+  have post := step2_reset_spec run H
+  rw [reach2_snoc]
+  refine ⟨by rw [post.state], by rw [post.state], by rw [post.state], by rw [post.state],
+    by rw [post.state]; exact resetW_kinds _, post.unindexed, post.cacheEmpty, post.unregistered,
+    fun h hi => ?_⟩
+  obtain ⟨h2, _⟩ := H.base.ginv.issued_bound h hi
+  exact post.dead h h2 (reach2_issued_gen run cap rel ops (by omega) h hi).2
 
 /-- the operations that are not about entities: `Shrink`, the filter operations, queries -/
 def Op2.isQuiet : Op2 → Bool
@@ -186,7 +218,7 @@ theorem copy_assigns {s : St} {fl : List Nat} (H : HInv2 s fl)
   have hm := find_some_mem hf
   obtain ⟨_, ha, h2, hnf, _, _⟩ := H.base.live_facts hm
   obtain ⟨w', hop, post⟩ := opCopyEntity_rel_spec run H.base.tinv H.base.unlocked H.base.noObs h2
-    hnf ha (by omega)
+    hnf ha (H.base.issued_in hi) (by omega)
   have hstep : step2 run s (.copy e) =
       ⟨w', (s.w.pool.get).2 :: s.issued,
         ⟨((s.w.pool.get).2, en) :: s.ss.ents, s.ss.zst, s.ss.isRel⟩⟩ := by
